@@ -11,8 +11,10 @@ waiting-on-next-level?, canceller call count, pending callbacks) that predicts f
 the call raises AlreadyCalledError (or lets a canceller's exception through) and everything observable
 afterwards; cancel() on a fired Deferred goes down the whole chain of Deferreds waiting for each other.
 """
+import traceback
 from typing import Tuple
 
+from twisted.internet import defer as _defer
 from twisted.internet.defer import AlreadyCalledError, CancelledError, Deferred
 from twisted.python.failure import Failure
 
@@ -23,7 +25,7 @@ LEVEL = "model_checking"
 ENCODED = ["twisted.internet.defer:Deferred.cancel", "twisted.internet.defer:Deferred._startRunCallbacks",
            "twisted.internet.defer:Deferred.callback", "twisted.internet.defer:Deferred.errback",
            "twisted.internet.defer:Deferred._runCallbacks"]
-BOUNDS = {"quick": {"n": 5, "n0": 5, "k": 3}, "thorough": {"n": 6, "n0": 7, "k": 5}}
+BOUNDS = {"quick": {"n": 5, "n0": 5, "k": 3, "nd": 4}, "thorough": {"n": 6, "n0": 7, "k": 5, "nd": 6}}
 B = {}
 BOUNDS_TEXT = ("every history of <= n ops (<= n0 ops for the outer Deferred without canceller, thorough tier) over {callback, errback, cancel, add callback returning the unfired-or-"
                "fired inner Deferred (+ probe), fire inner}, outer canceller kind in {none, no-op, fires callback, "
@@ -31,12 +33,14 @@ BOUNDS_TEXT = ("every history of <= n ops (<= n0 ops for the outer Deferred with
                "three levels (d -> inner -> inner2), 3 prefixes (both returning callbacks added / d already "
                "waiting / d waits for inner waits for inner2) followed by every k ops of all 7, inner and "
                "inner2 canceller kinds free, d's canceller the no-op one; model and real state are compared "
-               "after every op, so shorter histories are covered as prefixes")
+               "after every op, so shorter histories are covered as prefixes; history_debug: histories of <= nd "
+               "ops with defer.setDebugging(True); chain3 runs with debugging off and on")
 OUTSIDE = ["histories longer than n (the property's own bound is 8)",
            "chains deeper than three levels; more than one Deferred per level; three-level histories that do not "
            "start with one of the three prefixes",
            "cancellers that re-enter cancel(), add callbacks or fire a different Deferred",
-           "Deferred.debug mode (AlreadyCalledError text), DeferredList / inlineCallbacks cancellation (C04, C05)"]
+           "the text of the AlreadyCalledError raised in debug mode (creation/invocation stacks are stubbed "
+           "out), DeferredList / inlineCallbacks cancellation (C04, C05)"]
 ASSUMPTIONS = ["the explicit state model _M is the specification of the documented one-result / cancellation rules",
                "op and kind codes outside their range denote the nearest valid code (clamping)"]
 EXPLANATION = ("symbolic histories on a real outer/inner Deferred pair with every canceller kind, compared step by step "
@@ -326,18 +330,41 @@ class _World:
 T8 = Tuple[int, int, int, int, int, int, int, int]
 
 
-def _hist(n, kinds, v, ops, nops=5, prefix=()):
-    """prefix: concrete ops run first; then n symbolic ops (code clamped to range(nops))"""
-    w = _World(v, kinds)
+class _NoStackText:
+    """stands in for the `traceback` module inside defer.py while Deferred debugging is on: the
+    creation/invocation stack *text* recorded by debug mode is irrelevant here and formatting the
+    solver's own stack on every Deferred operation is slow"""
+
+    @staticmethod
+    def format_stack(*a, **k):
+        return []
+
+    def __getattr__(self, name):
+        return getattr(traceback, name)
+
+
+def _hist(n, kinds, v, ops, nops=5, prefix=(), debug=False):
+    """prefix: concrete ops run first; then n symbolic ops (code clamped to range(nops)).
+    debug: run with defer.setDebugging(True) (restored afterwards): the protocol must not change"""
+    dbg = True if debug else False
+    old = (_defer.getDebugging(), _defer.traceback)
+    _defer.setDebugging(dbg)
+    if dbg:
+        _defer.traceback = _NoStackText()
     try:
-        for i in range(len(prefix) + n):
-            op = prefix[i] if i < len(prefix) else _c(ops[i - len(prefix)], 0, nops)
-            if not w.step(i, op):
-                return False
-        cover()
-        return w.same(True)
+        w = _World(v, kinds)
+        try:
+            for i in range(len(prefix) + n):
+                op = prefix[i] if i < len(prefix) else _c(ops[i - len(prefix)], 0, nops)
+                if not w.step(i, op):
+                    return False
+            cover()
+            return w.same(True)
+        finally:
+            w.finish()
     finally:
-        w.finish()
+        _defer.setDebugging(old[0])
+        _defer.traceback = old[1]
 
 
 def history(ck: int, ik: int, v: int, ops: T8) -> bool:
@@ -362,13 +389,22 @@ def history_nocanc(ik: int, v: int, ops: T8) -> bool:
 PRE3 = [(3, 5), (3, 0, 5), (3, 5, 0, 4)]     # the last one: d waits for inner waits for inner2
 
 
-def chain3(sc: int, ik: int, ik2: int, v: int, ops: T8) -> bool:
+def history_debug(ck: int, ik: int, v: int, ops: T8) -> bool:
+    """
+    pre: True
+    post: _
+    """
+    # the same histories under defer.setDebugging(True); both canceller kinds are decoded when needed
+    return _hist(B['nd'], (ck, ik, 0), v, ops, debug=True)
+
+
+def chain3(debug: bool, sc: int, ik: int, ik2: int, v: int, ops: T8) -> bool:
     """
     pre: 0 <= sc < len(PRE3)
     post: _
     """
     # d's own canceller is the counting no-op one here (all its kinds are covered by `history`)
-    return _hist(B['k'], (1, ik, ik2), v, ops, 7, PRE3[_c(sc, 0, len(PRE3))])
+    return _hist(B['k'], (1, ik, ik2), v, ops, 7, PRE3[_c(sc, 0, len(PRE3))], debug)
 
 
 def _bucket(k, c, nops=5):
@@ -389,7 +425,10 @@ HARNESSES = [
     H(history, shards=lambda tier: _split([("ck == %d" % ck,) for ck in range(5)], 1 if tier == "quick" else 2),
       timeout={"quick": 150, "thorough": 1200}),
     H(history_nocanc, shards=lambda tier: _split([()], 3), tiers=("thorough",), timeout={"thorough": 1200}),
-    H(chain3, shards=lambda tier: _split([("sc == %d" % k,) for k in range(len(PRE3))], 0 if tier == "quick" else 2, 7),
+    H(history_debug, shards=lambda tier: _split([()], 1 if tier == "quick" else 3),
+      timeout={"quick": 150, "thorough": 1200}),
+    H(chain3, shards=lambda tier: _split([("sc == %d" % k, "debug == %s" % dbg) for k in range(len(PRE3))
+                                          for dbg in (False, True)], 0 if tier == "quick" else 2, 7),
       timeout={"quick": 150, "thorough": 1200}),
 ]
 
@@ -405,10 +444,16 @@ VECTORS = {"history": [
 ], "chain3": [
     # d waits for inner, inner (fired) waits for inner2: cancel on d must reach inner2's canceller;
     # the late result for inner2 (no canceller) is swallowed
-    (0, 1, 0, 5, (0, 4, 2, 6, 0, 0, 0, 0)),
-    (0, 1, 2, 5, (0, 4, 2, 6, 0, 0, 0, 0)),
-    (0, 3, 4, 5, (4, 0, 2, 2, 0, 0, 0, 0)),
-    (1, 0, 1, -1, (4, 6, 2, 3, 0, 0, 0, 0)),
-    (2, 1, 0, 7, (2, 6, 6, 0, 0, 0, 0, 0)),
-    (2, 4, 1, 7, (2, 2, 4, 0, 0, 0, 0, 0)),
+    (False, 0, 1, 0, 5, (0, 4, 2, 6, 0, 0, 0, 0)),
+    (False, 0, 1, 2, 5, (0, 4, 2, 6, 0, 0, 0, 0)),
+    (False, 0, 3, 4, 5, (4, 0, 2, 2, 0, 0, 0, 0)),
+    (False, 1, 0, 1, -1, (4, 6, 2, 3, 0, 0, 0, 0)),
+    (False, 2, 1, 0, 7, (2, 6, 6, 0, 0, 0, 0, 0)),
+    (False, 2, 4, 1, 7, (2, 2, 4, 0, 0, 0, 0, 0)),
+    # debugging on: the late result for the cancelled canceller-less inner is still swallowed
+    (True, 0, 0, 0, 5, (0, 2, 4, 4, 0, 0, 0, 0)),
+    (True, 2, 1, 0, 7, (2, 6, 6, 0, 0, 0, 0, 0)),
+], "history_debug": [
+    (0, 0, 5, (2, 0, 0, 1, 0, 0, 0, 0)),
+    (1, 0, 5, (3, 0, 2, 4, 0, 0, 0, 0)),
 ]}
